@@ -38,6 +38,7 @@ class ReduceFn:
             raise Unsupported("reduction kernel without keepdims")
         out = SymBlock(tuple(1 if i in axis else s for i, s in enumerate(x.shape)), self.out_dtype or x.dtype, None, f"{self.label}(...)")
         out.agg = getattr(x, "agg", None)  # a reduced chunk aggregates exactly the elements its argument aggregates
+        out.aggpos = getattr(x, "aggpos", None)
         return out
 
 
@@ -98,10 +99,20 @@ def partial_reduce_loop(c, kind):
         fr.locals["__fields__"] = fields
         return fields
 
+    def pos_after(interp, fr, j):
+        """any reduction: after folding j blocks the result aggregates positions 0..j-1 of the task's block stream"""
+        if kind != "reduce":
+            return None
+        g0 = getattr(fr.locals["arrays"].get(interp, 0), "aggpos", None)
+        if g0 is None:
+            return None
+        return dict(seq=g0["seq"], lo=0, hi=j, cond=[])
+
     def one_block(interp, fr, j):
         shp, dt = shape_after(interp, fr, j)
         blk = SymBlock(shp, dt, None, "partial")
         blk.agg = agg_after(interp, fr, j)
+        blk.aggpos = pos_after(interp, fr, j)
         return blk
 
     def havoc(interp, fr, j):
@@ -132,6 +143,16 @@ def partial_reduce_loop(c, kind):
                 for (l1, h1), (l2, h2) in zip(got["box"], want["box"]):
                     terms += [_tz(l1) == _tz(l2), _tz(h1) == _tz(h2)]
                 yield f"aggregates-the-first-j-blocks-each-once{tag}", _z3.And(*terms)
+        wantp = pos_after(interp, fr, j)
+        if wantp is not None:
+            import z3 as _z3
+            from pyvc.sym import tz as _tz
+
+            gp = getattr(res, "aggpos", None)
+            if gp is None or gp["seq"] != wantp["seq"]:
+                yield f"folds-stream-positions-0..j-1-each-once{tag}", False
+            else:
+                yield f"folds-stream-positions-0..j-1-each-once{tag}", _z3.And(*(list(gp["cond"]) + [_tz(gp["lo"]) == 0, _tz(gp["hi"]) == _tz(j)]))
 
     def holds(interp, fr, j):
         res = fr.locals.get("result")
@@ -283,7 +304,61 @@ class PartialReduce(ArrayOpSpec):
         kw = dict(func=ReduceFn("reduce"), initial_func=None, split_every=split, dtype=x.dtype)
         if len(axes) == 1:
             c.check_result_block = self._group_clause(c, x, axes[0], split[axes[0]])
+        else:
+            c.check_result_block = self._stream_clause(c, x, split)
         return (x,), kw
+
+    @staticmethod
+    def _stream_clause(c, x, split):
+        """C01 for one round of a reduction over several axes: the block a task returns folds *every* position of the
+        task's block stream exactly once (positional provenance through `_partial_reduce`); every key of the stream
+        lies in the task's group box, and the stream has exactly as many keys as the box has blocks — with
+        itertools.product enumerating each tuple once (assumed), the task folds exactly the blocks of its group."""
+        import z3
+
+        from pyvc.sym import tz
+
+        def hook(it, rec, tag, j, blk):
+            if isinstance(blk, dict):
+                for f, v in blk.items():
+                    hook(it, rec, f"{tag}[{f}]", j, v)
+                return
+            ctx = it.ctx
+            oc = rec.oc
+            if not rec.streams:
+                ctx.oblige(f"{tag}.agg[out{j}]:folds-its-whole-stream", False, kind="ensures", detail="no block stream")
+                return
+            _pos, keys, stream = rec.streams[0]
+            m = keys.length()
+            gp = getattr(blk, "aggpos", None)
+            if gp is None or gp["seq"] != id(stream):
+                ctx.oblige(f"{tag}.agg[out{j}]:folds-its-whole-stream", False, kind="ensures", detail="positional provenance lost")
+            else:
+                ctx.oblige(f"{tag}.agg[out{j}]:folds-its-whole-stream", z3.And(*(list(gp["cond"]) + [tz(gp["lo"]) == 0, tz(gp["hi"]) == tz(m)])), kind="ensures")
+            # the group's box, per axis: blocks oc*S .. min((oc+1)*S, nb) - 1  (S = 1 on axes that are not reduced)
+            count = 1
+            los, his = [], []
+            for i in range(x.ndim):
+                s_ = split.get(i, 1)
+                lo = oc[i] * s_
+                hi = c.min((oc[i] + 1) * s_, x.numblocks[i])
+                los.append(lo)
+                his.append(hi)
+                count = count * (hi - lo)
+            ctx.oblige(f"{tag}.agg:stream-has-one-key-per-block-of-the-group", tz(m) == tz(count), kind="ensures")
+            ctx.push()
+            try:
+                k = ctx.fresh_int("gk", lo=0)
+                ctx.assume(k < m)
+                if ctx.feasible():
+                    key = keys.get(it, k)
+                    coords = tuple(key.attrs["coords"])
+                    ctx.oblige(f"{tag}.agg:every-key-lies-in-the-group-box",
+                               z3.And(*[z3.And(tz(l) <= tz(cc), tz(cc) < tz(h)) for cc, l, h in zip(coords, los, his)]), kind="ensures")
+            finally:
+                ctx.pop()
+
+        return hook
 
     @staticmethod
     def _group_clause(c, x, ax, s_):
